@@ -26,7 +26,7 @@ ASSUMPTIONS = [
     "the target's body only observes its parameters (prints locals()), so any parameter may be removed",
     "no annotations, keyword-only or positional-only parameters (functionutils carries a FIXME for them)",
 ]
-BUDGET = {"quick": (12000, 240), "thorough": (240000, 2700)}
+BUDGET = {"quick": (30000, 240), "thorough": (400000, 2700)}
 
 PN = ["a", "b", "c", "d"]
 
@@ -121,8 +121,39 @@ def cases(draw):
     return {"kind": kind, "params": params, "star": star, "kw": kw, "calls": calls, "changers": changers}
 
 
+@st.composite
+def intro_cases(draw):
+    """IntroduceParameter: an expression made of module-level names, used 1-3 times in the body of a function (and around
+    it), becomes a new defaulted parameter; every call keeps its meaning because the default is that expression."""
+    expr = draw(st.sampled_from(["K", "cfg.size", "cfg.size"]))
+    uses = draw(st.integers(1, 3))
+    body = draw(st.sampled_from(["return a + {e}", "t = {e} * 2\n    return t + a", "if a > {e}:\n        return {e}\n    return a - {e}"]))
+    after = draw(st.sampled_from(["", "\n", "{e}.__class__\n", "\n{e}.__class__\n", "x9 = {e}\nprint(x9)\n", "print({e})\n"]))
+    before = draw(st.sampled_from(["", "y9 = {e}\n"]))
+    kind = draw(st.sampled_from(["function", "method"]))
+    calls = [draw(st.sampled_from(["target(1)", "target(a=2)", "target(5)"])) for _ in range(draw(st.integers(1, 3)))]
+    return {"intro": True, "expr": expr, "uses": uses, "body": body, "after": after, "before": before, "kind": kind, "calls": calls,
+            "query_use": draw(st.integers(0, 2))}
+
+
+def render_intro(case):
+    e = case["expr"]
+    head = "K = 4\ndef helper(p):\n    return p + 1\nclass Cfg:\n    size = 3\ncfg = Cfg()\n"
+    body = case["body"].replace("{e}", e)
+    if case["kind"] == "function":
+        fn = "def target(a):\n    %s\n" % body
+        calls = "".join("print(%s)\n" % c for c in case["calls"])
+        use_calls = "".join("print(lib.%s)\n" % c for c in case["calls"])
+    else:
+        fn = "class Host:\n    def target(self, a):\n        %s\n" % body.replace("\n    ", "\n        ")
+        calls = "obj = Host()\n" + "".join("print(obj.%s)\n" % c for c in case["calls"])
+        use_calls = "".join("print(lib.obj.%s)\n" % c for c in case["calls"])
+    lib = head + case["before"].replace("{e}", e) + fn + case["after"].replace("{e}", e) + calls
+    return {"lib.py": lib, "use.py": "import lib\n" + use_calls, "main.py": "import lib\nimport use\n"}
+
+
 def strategy(tier):
-    return cases()
+    return st.one_of(cases(), cases(), cases(), cases(), cases(), intro_cases())
 
 
 def render(case):
@@ -170,6 +201,8 @@ def render(case):
 
 
 def describe(case):
+    if case.get("intro"):
+        return {"lib.py": render_intro(case)["lib.py"], "refactoring": "IntroduceParameter"}
     f = render(case)
     return {"lib.py": f["lib.py"], "use.py": f["use.py"], "changers": case["changers"]}
 
@@ -214,7 +247,70 @@ def parse_calls(stdout):
     return out
 
 
+def _evaluate_intro(case, env):
+    from rope.base import exceptions as rex
+    from rope.base.project import Project
+    from rope.refactor.introduce_parameter import IntroduceParameter
+
+    from props.c05_move import _apply, _show as show5
+
+    out = core.Outcome()
+    files = render_intro(case)
+    base = runner.run(files, "main.py")
+    if base[1]:
+        raise core.HarnessError("generated project raises %s\n%s" % (base[1], runner.LAST_TB))
+    out.labels["kind:introduce_parameter"] += 1
+    root = core.fresh_dir("c06i")
+    fsmodel.write_tree(root, files)
+    project = Project(root, ropefolder=None)
+    try:
+        lib = files["lib.py"]
+        fstart = lib.index("def target")
+        # the k-th use of the expression inside the function
+        offs = []
+        pos = fstart
+        while True:
+            pos = lib.find(case["expr"], pos + 1)
+            if pos < 0:
+                break
+            offs.append(pos)
+        inside = [o for o in offs if o > fstart and (lib.find("\n", o) < len(lib)) and lib[lib.rfind("\n", 0, o) + 1: lib.rfind("\n", 0, o) + 2] == " "]
+        if not inside:
+            return out
+        off = inside[case["query_use"] % len(inside)] + (len(case["expr"]) - 1 if "." in case["expr"] else 0)
+        out.evals += 1
+        try:
+            changes = IntroduceParameter(project, project.get_file("lib.py"), off).get_changes("newp")
+        except rex.RopeError:
+            out.refused += 1
+            return out
+        except Exception as e:
+            out.notes["crashed:%s (see C09)" % type(e).__name__] += 1
+            return out
+        new_files, moves = _apply(files, changes)
+        where = "introduce parameter for %r\n%s" % (case["expr"], show5(files, new_files, moves))
+        bad = runner.compiles(new_files)
+        if bad:
+            out.violation("C06:introduce_parameter:does_not_compile", "%s\n%s" % (bad[0], where))
+            return out
+        got = runner.run(new_files, "main.py")
+        if got != base:
+            out.violation("C06:introduce_parameter:behaviour%s" % (":" + got[1] if got[1] else ""), "output %r/%s -> %r/%s\n%s" % (base[0][-80:], base[1], got[0][-80:], got[1], where))
+            return out
+        if "newp=" + case["expr"].replace(" ", "") not in new_files["lib.py"].replace(" ", ""):
+            out.violation("C06:introduce_parameter:no_defaulted_parameter", where)
+            return out
+        if len(inside) >= 2 or case["after"].strip():
+            out.nontrivial.add("intro")
+    finally:
+        project.close()
+        core.rmtree(root)
+    return out
+
+
 def evaluate(case, env):
+    if case.get("intro"):
+        return _evaluate_intro(case, env)
     from rope.base import exceptions as rex
     from rope.base.project import Project
     from rope.refactor import change_signature as cs
